@@ -259,6 +259,8 @@ def step_state(l3, machine, sidx, sym_is_end, alloc, stats, want=('c06', 'c03', 
         if not hit:
             d['discharged'] += 1
             d['nontrivial'].append('c04:' + key)
+        if 'c06' not in want:
+            d['cov']['transitions'] += len(apaths)
     # ---- C06 / C17: pairwise comparison
     if 'c06' in want:
         cpaths = [p for p in ex.paths if p.kind != 'UNWIND']
